@@ -3,7 +3,16 @@
 for an independent sub-agent that is to produce realistic property-breaking changes (seeded mutations)."""
 import json, os, subprocess, sys
 pid = sys.argv[1]
-base = "/tmp/seed/%s" % pid
+rnd = sys.argv[2] if len(sys.argv) > 2 else ""
+base = "/tmp/seed%s/%s" % (rnd, pid)
+ROOT0 = os.path.dirname(os.path.dirname(os.path.abspath(__file__)))
+used = []
+import glob
+for f in sorted(glob.glob(os.path.join(ROOT0, "seeded", pid + "-*", "meta.json"))):
+    try:
+        used.append("- " + (json.load(open(f)).get("summary") or "")[:300].replace("\n", " "))
+    except Exception:
+        pass
 os.makedirs(base + "/out", exist_ok=True)
 prop = None
 for l in open(os.path.join(os.path.dirname(os.path.dirname(os.path.abspath(__file__))), "properties.jsonl")):
@@ -18,9 +27,9 @@ print(f"""You are testing how well a verification effort detects regressions in 
 
 The property (JSON, with anchors into the code): {base}/property.json — read it first, then read the anchored code in {wt}.
 
-Task: produce TWO different, independent changes to the seq-db source (non-test .go files) that each BREAK this property while the code still compiles and the existing test suite still passes. Each change must need something specific to manifest — a particular interleaving, a crash or fault at a particular point, a multi-step sequence of operations, an unusual input or data shape, or two cooperating sites that each look fine alone — NOT something ordinary use or the existing tests would expose at once. Make them realistic: the kind of small slip a maintainer could make in a refactoring, optimisation or bug fix (off-by-one at a boundary, a comparison flipped for an edge case, a dropped step on a rarely taken path, a swapped order of two operations, a swallowed error, a stale value reused), 1-15 changed lines each, in the mechanisms the property's anchors name. The two changes must hit different mechanisms.
+{("Earlier seeded changes for this property already exist; yours must use DIFFERENT mechanisms and different code sites than these:" + chr(10) + chr(10).join(used) + chr(10) + chr(10)) if (rnd and used) else ""}Task: produce TWO different, independent changes to the seq-db source (non-test .go files) that each BREAK this property while the code still compiles and the existing test suite still passes. Each change must need something specific to manifest — a particular interleaving, a crash or fault at a particular point, a multi-step sequence of operations, an unusual input or data shape, or two cooperating sites that each look fine alone — NOT something ordinary use or the existing tests would expose at once. Make them realistic: the kind of small slip a maintainer could make in a refactoring, optimisation or bug fix (off-by-one at a boundary, a comparison flipped for an edge case, a dropped step on a rarely taken path, a swapped order of two operations, a swallowed error, a stale value reused), 1-15 changed lines each, in the mechanisms the property's anchors name. The two changes must hit different mechanisms.
 
-For each change i in {{1,2}} deliver in {base}/out/m<i>/:
+For each change i in {{1,2}} deliver in {base}/out/m<i>/ (i.e. m1 and m2):
   patch.diff   — `git diff` of the source change only (must apply with `git apply` to a clean checkout of the worktree's HEAD)
   demo_test.go (or demo/main.go) — a demonstration that FAILS with the change and PASSES without it: a Go test placed in the right package directory (say where in meta.json) or a small program; deterministic, runs in under 2 minutes
   meta.json    — {{"property": "{pid}", "summary": "...what was changed", "needs": "...what exactly is needed for it to manifest", "demo_path": "where to copy the demo inside the repo", "demo_cmd": "command to run the demo", "commands_run": [...], "results": "..."}}
